@@ -51,6 +51,7 @@ pub struct Scenario {
     pub rewards: bool,
     /// filter / decay period of an adaptive-fee pool: clock steps are drawn around them
     pub af_periods: Option<(u16, u16)>,
+    pub af_group: u16,
 }
 
 /// Build a fresh world with one pool; returns the scenario description.
@@ -111,6 +112,7 @@ pub fn build_world(seed: u64, tokens: &str, rewards: bool, adaptive: bool, rec: 
     };
     let v2 = tokens != "spl" || w.rng.gen_bool(0.3);
     let mut af_periods = None;
+    let mut af_group = 0u16;
     if adaptive {
         // an adaptive-fee pool with random valid constants
         let divisors: Vec<u16> = (1..=spacing.min(512)).filter(|d| spacing % d == 0).collect();
@@ -128,6 +130,7 @@ pub fn build_world(seed: u64, tokens: &str, rewards: bool, adaptive: bool, rec: 
             major_swap_threshold_ticks: (pick(&mut w, &[1u32, 8, 64, 1000]) as i32).min(spacing as i32 * 88) as u16,
         };
         af_periods = Some((c.filter_period, c.decay_period));
+        af_group = c.tick_group_size;
         let funder = w.funder;
         let del = w.users["U3"];
         let ix = w.ix_init_adaptive_fee_tier("C1", 1024, spacing, funder, del, fee_rate, &c);
@@ -187,7 +190,7 @@ pub fn build_world(seed: u64, tokens: &str, rewards: bool, adaptive: bool, rec: 
         bounds.dedup();
     }
     let liq_hi = pick(&mut w, &[20u32, 40, 50, 64, 80]);
-    let sc = Scenario { pool: "P1".into(), users: vec!["U1".into(), "U2".into(), "U3".into()], bounds, full_range_only, v2_only: tokens != "spl", liq_bits: (1, liq_hi), rewards, af_periods };
+    let sc = Scenario { pool: "P1".into(), users: vec!["U1".into(), "U2".into(), "U3".into()], bounds, full_range_only, v2_only: tokens != "spl", liq_bits: (1, liq_hi), rewards, af_periods, af_group };
     rec.reset(&mut w, json!({"seed": nu(seed as u128), "tokens": tokens, "spacing": spacing, "feeRate": fee_rate, "protoRate": proto}));
     (w, sc)
 }
@@ -675,6 +678,75 @@ fn whale_corner(w: &mut World, sc: &Scenario, rec: &mut Recorder) {
     }
 }
 
+/// Adaptive fee (C14): a deterministic walk through the reference rules.  Liquidity over a wide range; a
+/// swap that moves several tick groups (accumulator > 0); a pause inside [filter, decay) and a small swap
+/// (the reference becomes the reduced accumulator); a pause beyond the decay period (or inside the window
+/// again) and a swap that moves many groups in either direction - each group must be charged its own rate
+/// computed from the DECAYED reference.
+fn af_decay_scenario(w: &mut World, sc: &Scenario, rec: &mut Recorder) {
+    let Some((f, d)) = sc.af_periods else { return };
+    let pool = sc.pool.clone();
+    let s = w.pools[&pool].spacing as i32;
+    let gs = sc.af_group as i32;
+    let t = w.pool_tick(&pool);
+    if gs == 0 || t.abs() > 300_000 || sc.full_range_only {
+        return;
+    }
+    let span = s * 88;
+    let base = t.div_euclid(s) * s;
+    let (lo, up) = (base - 80 * s, base + 80 * s);
+    let mut starts = vec![];
+    for tt in [lo, up, t, t - span, t + span, t - 2 * span, t + 2 * span] {
+        starts.push(tt.div_euclid(span) * span);
+    }
+    starts.sort();
+    starts.dedup();
+    for st in starts {
+        if !w.ta_exists(&pool, st) {
+            let dynamic = w.pools[&pool].dynamic;
+            let ix = w.ix_init_tick_array(&pool, st, dynamic);
+            rec.exec(w, &ix, true, json!("setup"));
+        }
+    }
+    let (ix, info) = w.ix_open_position(&pool, "U1", lo, up, PosKind::Plain);
+    if !rec.exec(w, &ix, true, json!("af")).ok() {
+        return;
+    }
+    let name = info.name.clone();
+    w.positions.insert(name.clone(), info);
+    let v2 = sc.v2_only;
+    let liq = 1u128 << w.rng.gen_range(30..44);
+    let ix = w.ix_increase(&name, "U1", liq, u64::MAX, u64::MAX, v2);
+    rec.exec(w, &ix, false, json!("af"));
+    let big = 1u64 << 58;
+    let boundary = |g: i32| price_of((g * gs).clamp(lo + s, up - s));
+    // 1. move several groups up
+    let g0 = t.div_euclid(gs);
+    let k1 = w.rng.gen_range(2..7);
+    let ix = w.ix_swap(&pool, "U2", big, 0, boundary(g0 + 1 + k1), true, false, v2);
+    rec.exec(w, &ix, false, json!("af"));
+    // 2. inside the filter..decay window: the reference becomes the reduced accumulator
+    let dt = pick(w, &[f as i64, (f as i64 + d as i64) / 2, d as i64 - 1]).max(0);
+    rec.tick_clock(w, dt);
+    let a_to_b = w.rng.gen_bool(0.5);
+    let small = w.rng.gen_range(1..100_000);
+    let ix = w.ix_swap(&pool, "U3", small, 0, if a_to_b { MIN_SQRT_PRICE } else { MAX_SQRT_PRICE }, true, a_to_b, v2);
+    rec.exec(w, &ix, false, json!("af"));
+    // 3. beyond the decay period (reference reset), at it, or inside the window again; then a long move
+    let dt = pick(w, &[d as i64 + 1, d as i64, d as i64 - 1, f as i64, 3601]).max(0);
+    rec.tick_clock(w, dt);
+    let g1 = w.pool_tick(&pool).div_euclid(gs);
+    let m = w.rng.gen_range(3..40);
+    let a_to_b = w.rng.gen_bool(0.5);
+    let limit = if a_to_b { boundary(g1 - m) } else { boundary(g1 + 1 + m) };
+    let ix = w.ix_swap(&pool, "U2", big, 0, limit, true, a_to_b, v2);
+    rec.exec(w, &ix, false, json!("af"));
+    // 4. and back, right away (inside the filter period: reference unchanged)
+    let limit = if a_to_b { boundary(g1 + 2) } else { boundary(g1 - 1) };
+    let ix = w.ix_swap(&pool, "U3", big, 0, limit, true, !a_to_b, v2);
+    rec.exec(w, &ix, false, json!("af"));
+}
+
 pub fn run(cfg: &HistCfg, rec: &mut Recorder) {
     rec.crosscheck_every = cfg.crosscheck_every;
     rec.dual = cfg.dual;
@@ -685,6 +757,9 @@ pub fn run(cfg: &HistCfg, rec: &mut Recorder) {
         let (mut w, sc) = build_world(seed, &cfg.tokens, cfg.rewards, cfg.adaptive, rec);
         if FORCE_HIGH.with(|c| c.replace(false)) {
             whale_corner(&mut w, &sc, rec);
+        }
+        if cfg.adaptive && h % 2 == 0 {
+            af_decay_scenario(&mut w, &sc, rec);
         }
         for s in 0..cfg.steps {
             random_step(&mut w, &sc, rec);
